@@ -23,17 +23,17 @@ Lemma loop_result c script : forall s prev i evs r, prev_ok prev i -> loop_gen f
 Proof.
   induction script as [|o rest IH]; intros s prev i evs r OK H; rewrite loop_unfold in H;
     pose proof (pre_spec fixed c s prev i) as P;
-    assert (P' : match pre fixed c s prev i with HRetry _ _ => True | HDone r0 _ =>
+    assert (P' : match pre fixed c s prev i with HRetry _ _ => True | HDone _ r0 _ =>
                match r0 with RSuccess _ => False | RRegionErr j => j + 1 = i /\ exists t o, prev = Some (t, o) /\ is_region_err o = true | _ => True end end).
     1,3: (unfold pre; destruct (c_interruptible c && killed s && _); [exact I|]; destruct prev as [[t o']|]; [|exact I]; destruct OK as [O1 O2];
-          pose proof (handle_q fixed c s t o' (pred i)) as HQ; destruct (handle fixed c s t o' (pred i)) as [|r0 e0]; [exact I|];
+          pose proof (handle_q fixed c s t o' (pred i)) as HQ; destruct (handle fixed c s t o' (pred i)) as [|sd0 r0 e0]; [exact I|];
           destruct r0; auto; destruct HQ as [-> HQ]; split; [lia|eauto]).
-  all: destruct (pre fixed c s prev i) as [s1 evs1|r0 evs1];
+  all: destruct (pre fixed c s prev i) as [s1 evs1|sd r0 evs1];
     [| injection H as <- <-; destruct P as [PA _]; destruct r0; unfold result_ok; auto; try tauto; destruct P' as [P1 P2]; split; [lia|left; auto]].
   all: destruct P as [_ P2]; cbv zeta in H;
     pose proof (sel_phase_spec c (if 0 <? i then set_q_retry true s1 else s1)) as Q;
     pose proof (sel_phase_q c (if 0 <? i then set_q_retry true s1 else s1)) as Q';
-    destruct (sel_phase c _) as [s2 t evs2|r2 evs2];
+    destruct (sel_phase c _) as [s2 t evs2|sd2 r2 evs2];
     [| injection H as <- <-; destruct Q' as [-> | ->]; exact I]; destruct Q as (_ & Q2 & _).
   - injection H as <- <-. destruct (dead s2); [exact I|]. unfold result_ok. rewrite !n_attempts_app, P2, Q2, Nat.sub_diag. cbn. repeat split; lia.
   - assert (A : forall e, n_attempts (evs1 ++ evs2 ++ EAtt t (q_rr s2) (q_stale s2) (q_retry s2) :: e) = S (n_attempts e))
@@ -84,7 +84,7 @@ Proof.
   unfold run_gen. destruct (validation_refuses c); [exact I|].
   set (s := init_state c rands sleeps). rewrite loop_unfold. unfold pre.
   destruct (c_interruptible c && killed s && _); [exact I|]. cbv zeta. cbn [Nat.ltb Nat.leb].
-  pose proof (sel_phase_spec c s) as Q; pose proof (sel_phase_q c s) as Q'. destruct (sel_phase c s) as [s2 t evs2|r evs2].
+  pose proof (sel_phase_spec c s) as Q; pose proof (sel_phase_q c s) as Q'. destruct (sel_phase c s) as [s2 t evs2|sd2 r evs2].
   2: { destruct Q as [Q _]. cbn [fst app]. now rewrite retry_flags_noatt. }
   destruct Q as (_ & Q & _). destruct Q' as [Q' _]. change (q_retry s) with false in Q'.
   assert (G : forall e, att_all (fun _ _ d => d = true) e ->
